@@ -66,6 +66,9 @@ func genCase(t *rapid.T) Case {
 	var c Case
 	c.Salt = rapid.Uint64().Draw(t, "salt")
 	c.Cfg.NoWait = rapid.Bool().Draw(t, "noWait")
+	if rapid.IntRange(0, 3).Draw(t, "rawClient") == 0 {
+		c.Cfg.RawClient, c.Cfg.NoWait = true, true
+	}
 	c.Cfg.Multiplex = rapid.IntRange(0, 4).Draw(t, "multiplex")
 	c.Cfg.ClientPattern = e2e.GenPattern(t, "cp", 3)
 	c.Cfg.ServerPattern = e2e.GenPattern(t, "sp", 3)
@@ -204,6 +207,7 @@ func prop(c Case) (o pbt.Outcome) {
 	o.Label("sessions=%d", len(c.Progs))
 	o.Label("shared=%v", shared)
 	o.Label("noWait=%v", c.Cfg.NoWait)
+	o.Label("rawClient=%v", c.Cfg.RawClient)
 	o.Label("smallChunk=%v", smallChunk)
 	o.Label("boundary=%v", boundary)
 	o.Label("leClient=%v", c.Cfg.ClientPattern.LowEntropy())
